@@ -58,6 +58,12 @@ func parseDelimiter(input []byte) (inputWithoutLenDelimiter []byte, unitLen uint
 	if err != nil {
 		return nil, 0, err
 	}
+	// the varint continues past the end of the input (it was completed by the
+	// zero padding above): the delimiter itself is incomplete, so there is no
+	// further complete unit
+	if len(delimiter)-r.Len() > l {
+		return input[len(input):], 0, nil
+	}
 
 	// calculate the number of bytes used by the delimiter
 	lenBuf := make([]byte, binary.MaxVarintLen64)
